@@ -13,9 +13,9 @@
 using namespace vf;
 static Scratch g_scr;
 
-enum Kind { K_KEY = 0, K_VALUE, K_CONT, K_SECTION, K_CB_LONG, K_CB_MANY, K_CA, K_CONFIG_NAME, K_SUFFIX, K_DROPIN_NAME, K_DIR_NAME, K_TOTAL_PATH, K_OPTION_ITEM, K_POSTFIX, K_NKINDS };
+enum Kind { K_KEY = 0, K_VALUE, K_CONT, K_SECTION, K_CB_LONG, K_CB_MANY, K_CA, K_CONFIG_NAME, K_SUFFIX, K_DROPIN_NAME, K_DIR_NAME, K_TOTAL_PATH, K_OPTION_ITEM, K_POSTFIX, K_CA_CONT, K_NKINDS };
 static const char *const KN[K_NKINDS] = {"key", "value", "continuation_line", "section", "comment_before_long_line", "comment_before_many_lines",
-                                         "comment_after", "config_name", "suffix", "dropin_name", "dir_name", "total_path", "option_item", "dropin_dir_postfix"};
+                                         "comment_after", "config_name", "suffix", "dropin_name", "dir_name", "total_path", "option_item", "dropin_dir_postfix", "comment_after_continuation_line"};
 enum Path { P_GETTERS = 0, P_EXT, P_MERGE, P_WRITE_READ, P_LAYERED, P_SET_WRITE_READ, P_NPATHS };
 static const char *const PN[P_NPATHS] = {"read_getters_listings", "read_extended_getter", "read_merge_getters", "read_write_read", "layered_read_callback", "set_write_read"};
 
@@ -26,6 +26,7 @@ static std::vector<size_t> lengths_for(int kind) {
   if (kind == K_CB_MANY) return {1, B - 2, B - 1, B, B + 1, B + 2, 2 * B, 65536};
   if (kind <= K_CA) return {1, B - 2, B - 1, B, B + 1, B + 2, 2 * B, 65536, 1048576};
   if (kind == K_OPTION_ITEM) return {1, B - 1, B, B + 1, 2 * B, 65536};
+  if (kind == K_CA_CONT) return {1, 40, B - 1, B, B + 1, 2 * B, 65536};
   if (kind == K_POSTFIX) return {1, 16, NAME_MAX - 1, NAME_MAX};  // the postfix is "/" + that many characters
   if (kind == K_TOTAL_PATH) return {PATH_MAX - 3, PATH_MAX - 2, PATH_MAX - 1, PATH_MAX, PATH_MAX + 1, PATH_MAX + 2};
   return {1, NAME_MAX - 1, NAME_MAX, NAME_MAX + 1};  // name kinds: length of the whole name component
@@ -36,6 +37,7 @@ static bool path_applies(int kind, int path) {
     return true;
   }
   if (kind == K_TOTAL_PATH) return path == P_GETTERS;
+  if (kind == K_CA_CONT) return path == P_EXT || path == P_MERGE;  // (the writer keeps comments of single-line entries only: C07)
   if (kind == K_POSTFIX) return path == P_GETTERS || path == P_LAYERED;  // list given as CONFIG_DIRS item / process-wide
   return path == P_LAYERED;  // names, directories, option items matter for the layered read
 }
@@ -69,7 +71,7 @@ static std::string where_differs(const std::string &got, const std::string &want
   } while (0)
 
 struct Doc {
-  std::string sec = "S", key = "k", val = "v", cont, cb, ca;
+  std::string sec = "S", key = "k", val = "v", cont, cb, ca, ca_cont;
   bool has_cont = false;
   std::string text() const {
     std::string t;
@@ -104,7 +106,7 @@ static std::string build_file(const Doc &d) {
   t += d.key + "=" + d.val;
   if (!d.ca.empty()) t += " #" + d.ca;
   t += "\n";
-  if (d.has_cont) t += "  " + d.cont + "\n";
+  if (d.has_cont) t += "  " + d.cont + (d.ca_cont.empty() ? std::string() : " #" + d.ca_cont) + "\n";
   t += "last=2\n";
   return t;
 }
@@ -161,6 +163,11 @@ static void check_object(econf_file *kf, const Doc &d, bool ext, bool comments, 
     if (comments) {
       SAME(std::string(stage) + ": comment before", cb, d.cb);
       if (!d.has_cont) SAME(std::string(stage) + ": comment after", ca, d.ca);
+      if (!d.ca_cont.empty()) {
+        // the comment of the continuation line is part of the entry's trailing comment, whole
+        size_t at = ca.find(d.ca_cont);
+        VF_CHECK(at != std::string::npos, "truncated-or-altered", stage << ": the trailing comment (" << ca.size() << " bytes) does not contain the " << d.ca_cont.size() << " byte comment of the continuation line: " << where_differs(ca.size() >= d.ca_cont.size() ? ca.substr(ca.size() - d.ca_cont.size()) : ca, d.ca_cont));
+      }
     }
   }
 }
@@ -208,9 +215,10 @@ static void run_cell(int kind, size_t len, int path, unsigned salt) {
   g_case.shape_hash = fnv_u64((uint64_t)kind * 1000003 + (uint64_t)path * 10007 + len, 3);
   const std::string R = g_scr.dir;
 
-  if (kind <= K_CA) {
+  if (kind <= K_CA || kind == K_CA_CONT) {
     Doc d;
     switch (kind) {
+      case K_CA_CONT: d.has_cont = true; d.cont = "c"; d.ca_cont = filler(len, salt); break;
       case K_KEY: d.key = filler(len, salt); break;
       case K_VALUE: d.val = filler(len, salt); break;
       case K_CONT: d.has_cont = true; d.cont = filler(len, salt); break;
